@@ -297,7 +297,10 @@ class QueryCreator(BaseQueryCreator):
                         raise ValueError(msg)
                     else:
                         attr = Document.rdf_map(i[0])
-                        if attr:
+                        if i[0] == "id":
+                            # The id is not exported as attribute, it names the node.
+                            self.query += "FILTER (?d = <{0}{1}>) .\n".format(odml_uri, i[1])
+                        elif attr:
                             re_sub = re.sub(odml_uri, "odml:", attr)
                             self.query += "?d {0} \"{1}\" .\n".format(re_sub, i[1])
 
@@ -312,7 +315,10 @@ class QueryCreator(BaseQueryCreator):
                         raise ValueError(msg)
                     else:
                         attr = Section.rdf_map(i[0])
-                        if attr:
+                        if i[0] == "id":
+                            # The id is not exported as attribute, it names the node.
+                            self.query += "FILTER (?s = <{0}{1}>) .\n".format(odml_uri, i[1])
+                        elif attr:
                             re_sub = re.sub(odml_uri, "odml:", attr)
                             self.query += "?s {0} \"{1}\" .\n".format(re_sub, i[1])
 
@@ -333,7 +339,10 @@ class QueryCreator(BaseQueryCreator):
                                 self.query += "?v rdf:li \"{}\" .\n".format(val)
                     else:
                         attr = Property.rdf_map(i[0])
-                        if attr:
+                        if i[0] == "id":
+                            # The id is not exported as attribute, it names the node.
+                            self.query += "FILTER (?p = <{0}{1}>) .\n".format(odml_uri, i[1])
+                        elif attr:
                             re_sub = re.sub(odml_uri, "odml:", attr)
                             self.query += "?p {0} \"{1}\" .\n".format(re_sub, i[1])
 
